@@ -264,7 +264,7 @@ pub fn c06_dfs_array_n3() {
 }
 
 // DfsDist over every digraph on 3 vertices x every source set.
-// @verif prop=C06 tier=quick fl=f2 role=dfs-dist/array t=900 mem=12
+// @verif prop=C06 tier=quick fl=f2 role=dfs-dist/array t=1200 mem=16
 #[cfg_attr(kani, kani::proof)]
 #[cfg_attr(kani, kani::unwind(5))]
 pub fn c06_dfs_dist_array_n3() {
@@ -272,7 +272,7 @@ pub fn c06_dfs_dist_array_n3() {
 }
 
 // DfsPred over every digraph on 3 vertices x every source set.
-// @verif prop=C06 tier=quick fl=f2 role=dfs-pred/array t=900 mem=12
+// @verif prop=C06 tier=quick fl=f2 role=dfs-pred/array t=1200 mem=20
 #[cfg_attr(kani, kani::proof)]
 #[cfg_attr(kani, kani::unwind(5))]
 pub fn c06_dfs_pred_array_n3() {
